@@ -117,12 +117,14 @@ impl Prop for C06 {
     }
     fn build(&self, ch: &mut Chooser, cx: &mut CaseCtx) -> C06Case {
         let thorough = cx.env.tier == Tier::Thorough;
-        let o = WsGenOpts { fail_chance: 5, max_patches: if thorough { 10 } else { 6 }, max_files: 8, strict_reject_dirs: true, alt_name_chance: 1, second_failure: true, allow_hard_error: true, ..Default::default() };
+        // a quarter of the workspaces is small enough for ALL interleavings of the apply phase to be forced
+        let small = ch.chance(1, 4);
+        let o = WsGenOpts { fail_chance: 5, max_patches: if small { 3 } else if thorough { 10 } else { 6 }, max_files: if small { 3 } else { 8 }, strict_reject_dirs: true, alt_name_chance: 1, second_failure: true, allow_hard_error: true, ..Default::default() };
         let ws = gen_ws(ch, cx, &o);
         let mut opts = gen_opts(ch, true);
         opts.threads = *ch.pick(&[2usize, 2, 3, 4, 8, 16]);
         opts.goal = if ch.chance(3, 4) { Goal::All } else { gen_goal(ch, &ws) };
-        let mut schedules = vec![("failing-last".to_string(), vec![]), ("failing-first".to_string(), vec![]), ("later-failure-reported-last".to_string(), vec![])];
+        let mut schedules = vec![("failing-last".to_string(), vec![]), ("failing-first".to_string(), vec![]), ("later-failure-reported-last".to_string(), vec![]), ("enumerate".to_string(), vec![])];
         let nrand = if thorough { 8 } else { 3 };
         for _ in 0..nrand {
             let pr: Vec<u32> = (0..24).map(|_| ch.below(1 << 16) as u32).collect();
@@ -183,9 +185,57 @@ impl Prop for C06 {
         let exp = expectation(ws, &case.opts, 0);
         let failing_key_prefix = ws.fail_at.filter(|_| exp.stops_on_failure).map(|j| format!("A {} ", j));
         let interesting = exp.stops_on_failure || ws.feat.iter().any(|f| f == "create-in-new-dir" || f == "delete" || f == "rename");
+        // expand "enumerate" into every linear extension of the per-worker orders when there are few
+        let queues0: Vec<Vec<String>> = apply_q.values().cloned().collect();
+        let cap = if cx.env.tier == Tier::Thorough { 120 } else { 24 };
+        let mut enumerated: Vec<Vec<String>> = Vec::new();
+        let mut complete = false;
+        {
+            let total: usize = queues0.iter().map(|q| q.len()).sum();
+            if queues0.iter().filter(|q| !q.is_empty()).count() >= 2 && total <= 12 {
+                // depth-first enumeration with a cap
+                fn rec(queues: &[Vec<String>], pos: &mut Vec<usize>, cur: &mut Vec<String>, out: &mut Vec<Vec<String>>, cap: usize, total: usize) -> bool {
+                    if cur.len() == total {
+                        out.push(cur.clone());
+                        return out.len() < cap + 1;
+                    }
+                    for w in 0..queues.len() {
+                        if pos[w] < queues[w].len() {
+                            cur.push(queues[w][pos[w]].clone());
+                            pos[w] += 1;
+                            let go_on = rec(queues, pos, cur, out, cap, total);
+                            pos[w] -= 1;
+                            cur.pop();
+                            if !go_on {
+                                return false;
+                            }
+                        }
+                    }
+                    true
+                }
+                let mut pos = vec![0; queues0.len()];
+                let mut cur = Vec::new();
+                complete = rec(&queues0, &mut pos, &mut cur, &mut enumerated, cap, total);
+                if !complete {
+                    enumerated.truncate(cap);
+                }
+            }
+        }
+        let mut expanded: Vec<(String, Vec<u32>, Option<Vec<String>>)> = Vec::new();
         for (kind, prio) in &case.schedules {
+            if kind == "enumerate" {
+                for e in &enumerated {
+                    expanded.push((if complete { "enumerated-all".to_string() } else { "enumerated-capped".to_string() }, vec![], Some(e.clone())));
+                }
+            } else {
+                expanded.push((kind.clone(), prio.clone(), None));
+            }
+        }
+        cx.label_if(complete && !enumerated.is_empty(), "all-linear-extensions-of-the-apply-phase-forced");
+        for (kind, prio, fixed) in &expanded {
             let queues: Vec<Vec<String>> = apply_q.values().cloned().collect();
             let mut script: Vec<String> = match kind.as_str() {
+                "enumerated-all" | "enumerated-capped" => fixed.clone().unwrap_or_default(),
                 "later-failure-reported-last" => {
                     // two failing patches j1 < j2 on different workers: j2's application starts first (so it
                     // passes the 'am I past the earliest failure' test), j1 fails and reports, then j2 reports
@@ -661,6 +711,7 @@ impl Prop for C18 {
         opts.threads = *ch.pick(&[1usize, 1, 2, 4]);
         opts.backup = ch.pick(&["always", "always", "onfail", "never"]).to_string();
         opts.mmap = false;
+        opts.via_d = false;
         opts.verbosity = ch.pick(&["-q", ""]).to_string();
         let fsize_eighths = vec![0, ch.range(1, 7) as u32, 8];
         C18Case { ws, opts, fsize_eighths }
@@ -726,6 +777,66 @@ impl Prop for C18 {
                 if got_applied.len() > exp.applied || got_applied[..] != names[..got_applied.len()] {
                     return Verdict::Fail(format!("{}: applied-patches holds {:?}", what, got_applied));
                 }
+            }
+        }
+        // obstacles: real faults without any hook - a path component that has the wrong type
+        {
+            let mut obstacles: Vec<(String, String, bool)> = vec![(".pc".into(), ".pc is a regular file".into(), false)];
+            if exp.applied > 0 && case.opts.backup == "always" && (case.opts.backup_count.is_empty() || case.opts.backup_count == "all") {
+                obstacles.push((format!(".pc/{}", names[exp.applied - 1]), "backup directory of the last applied patch is a regular file".into(), false));
+            }
+            if exp.stops_on_failure && !exp.hard_error {
+                if let Some(op) = ws.metas[ws.fail_at.unwrap()].ops.iter().find(|o| !o.failing_hunks.is_empty()) {
+                    obstacles.push((format!("{}.rej", op.target), "the reject path is a non-empty directory".into(), true));
+                }
+            }
+            let pick = obstacles[(n + ws.metas.len()) % obstacles.len()].clone();
+            let root = cx.env.fresh_dir("c18o-");
+            ws.spec.materialise(&root);
+            let op = root.join(&pick.0);
+            let mut usable = true;
+            if pick.2 {
+                usable = std::fs::create_dir_all(op.join("sub")).is_ok();
+            } else {
+                if let Some(par) = op.parent() {
+                    let _ = std::fs::create_dir_all(par);
+                }
+                usable = usable && std::fs::write(&op, b"obstacle\n").is_ok();
+            }
+            if usable {
+                let obs = push(cx, &root, &case.opts, &Default::default());
+                ws::rm_rf(&root);
+                cx.label(&format!("obstacle-{}", if pick.2 { "rej-is-dir" } else if pick.0 == ".pc" { "pc-is-file" } else { "backup-dir-is-file" }));
+                if obs.out.exit == Exit::Timeout {
+                    return Verdict::Inconclusive("watchdog".into());
+                }
+                // is the obstacle really in the way of this run?
+                let in_the_way = match pick.0.as_str() {
+                    ".pc" => true,
+                    _ => true,
+                };
+                if in_the_way {
+                    cx.nontrivial = true;
+                    cx.sub_hashes.push(fnv(format!("obstacle|{}", pick.0).as_bytes()));
+                    let what = format!("obstacle: {} ({:?})", pick.1, pick.0);
+                    match obs.out.exit {
+                        Exit::Code(1) => {}
+                        Exit::Code(0) => return Verdict::Fail(format!("{}: the push reports success (exit 0)", what)),
+                        ref other => return Verdict::Fail(format!("{}: crashed: {:?}; stderr: {}", what, other, ws::lossy(&obs.out.stderr))),
+                    }
+                    if !names_file(&obs.out.stderr, &pick.0) && !(pick.0.starts_with(".pc") && String::from_utf8_lossy(&obs.out.stderr).contains(".pc")) {
+                        return Verdict::Fail(format!("{}: the error message does not name the file: {}", what, ws::lossy(&obs.out.stderr)));
+                    }
+                    let got_applied: Vec<String> = obs.snap.get(&b".pc/applied-patches".to_vec()).map(|e| String::from_utf8_lossy(&e.bytes).lines().map(|s| s.to_string()).collect()).unwrap_or_default();
+                    if pick.0 == ".pc" && !got_applied.is_empty() {
+                        return Verdict::Fail(format!("{}: applied-patches gained {:?}", what, got_applied));
+                    }
+                    if got_applied.len() > exp.applied || got_applied[..] != names[..got_applied.len()] {
+                        return Verdict::Fail(format!("{}: applied-patches holds {:?}", what, got_applied));
+                    }
+                }
+            } else {
+                ws::rm_rf(&root);
             }
         }
         // kernel-level: writes beyond L bytes fail with EFBIG
